@@ -182,7 +182,20 @@ func TestC10(t *testing.T) {
 		drawEntry := func(rt *rapid.T) *ftEntry {
 			es := entries()
 			if len(es) == 0 {
-				rt.Skip()
+				// an empty tree: the action turns into provisioning a root first (skipping here could leave the state
+				// machine without any enabled action for many draws in a row)
+				a := w.accs[0]
+				root, acct := fttypes.MerklePath("s"), hexsha(a.Bech)
+				tn := "tn-auto"
+				ed, vw := aclJSON(map[string]string{ftEditorID(tn, a.Bech): "k"}), aclJSON(map[string]string{ftViewerID(tn, a.Bech): "k"})
+				if r := w.f.Exec(fttypes.NewMsgProvisionFileTree(a.Bech, ed, vw, tn)); r.OK() {
+					w.model[ftKey(root, ftOwnerAddr(root, acct))] = &ftEntry{Address: root, Owner: ftOwnerAddr(root, acct), Account: acct, Contents: "", Viewers: vw, Editors: ed, Tracking: tn}
+					w.logf("provision root by %s (the tree was empty)", short(a.Bech))
+				}
+				es = entries()
+				if len(es) == 0 {
+					rt.Skip()
+				}
 			}
 			return es[rapid.IntRange(0, len(es)-1).Draw(rt, "entry")]
 		}
